@@ -9,6 +9,7 @@
 
 #include "printf_impl.h"
 #include <ctype.h>
+#include <float.h>
 #include <igris/dprint.h>
 #include <igris/math/defs.h>
 #include <igris/util/types_extension.h>
@@ -64,8 +65,19 @@
 /**
  * Options for print_f
  */
+#ifdef LONG_DOUBLE
+#define PRINT_F_INT_DIGITS (LDBL_MAX_10_EXP + 1)
+#else
+#define PRINT_F_INT_DIGITS (DBL_MAX_10_EXP + 1)
+#endif
+#define PRINT_F_FRAC_DIGITS                                                    \
+    40 /* fraction digits that are computed; a longer precision is filled      \
+          with zeros */
 #define PRINT_F_BUFF_SZ                                                        \
-    65 /* size of buffer for long double -- FIXME this may not be enough */
+    (PRINT_F_INT_DIGITS + 1 + PRINT_F_FRAC_DIGITS +                            \
+     1) /* every integer digit of the largest finite value, the point, the     \
+           fraction digits and the terminator; the exponent of %e needs less   \
+           than the integer digits it replaces */
 //#define PRINT_F_PREC_SHORTENED 4 /* shortened precision for real numbers */
 #define PRINT_F_PREC_DEFAULT 6 /* default precision for real numbers */
 
@@ -301,7 +313,9 @@ static int print_f(void (*printchar_handler)(void *d, int c),
     }
     fp = with_exp ? fp : MODF(r, &ip);
     precision -= (int)(is_shortened ? ceill(LOG10(ip)) + (ip != 0.0L) : 0);
-    for (; (sign_count < precision) && (FMOD(fp, 1.0L) != 0.0L); ++sign_count)
+    for (; (sign_count < MIN(precision, PRINT_F_FRAC_DIGITS)) &&
+           (FMOD(fp, 1.0L) != 0.0L);
+         ++sign_count)
         fp *= base;
     fp = roundl(fp);
 
